@@ -7,6 +7,7 @@ import DelbDriver.Serialize
 import DelbDriver.Pretty
 import DelbDriver.Edit
 import DelbDriver.Nav
+import DelbDriver.Guards
 open Lean DelbDriver
 
 def dispatch (j : Json) : Except String Json := do
@@ -20,6 +21,7 @@ def dispatch (j : Json) : Except String Json := do
   | "pretty" => handlePretty j
   | "edits" => handleEdits j
   | "nav" => handleNav j
+  | "guard" => handleGuard j
   | "tokenize" => handleTokenize j
   | "reduce_content" => handleReduceContent j
   | _ => throw s!"unknown cmd {cmd}"
